@@ -363,8 +363,8 @@ example : ¬ ThreadsDir (allTypeNames.map fun t => ⟨t, if t = "model_run" then
 /-! ### follow-up: two more tables regenerated on every run (Tie 1) -/
 
 /-- which adapter converts an instance of a collection class, as observed on the imported code: the
-    `collection_type` of the document `to_aeof` makes of a smallest instance of the class itself
-    (`exact`) and of a smallest instance of a user-defined subclass of it (`subclass`) -/
+    `collection_type` of the document `save` writes for a smallest instance of the class itself
+    (`exact`) and for a smallest instance of a user-defined subclass of it (`subclass`) -/
 structure DispatchRow where
   type : String
   exact : String
